@@ -163,9 +163,14 @@ class Random(Component):
         C = gen.build_candset(case["candset"])
         tok = mk_tok(case["tok"]) if case["tok"] else None
         fn = simfns.get(case["fn"])
+        before = [canon.snapshot(C), canon.snapshot(L), canon.snapshot(R)]
         out = run_matcher(ctx, case, C, L, R, tok, fn, real=case.get("real", False))
         if out is None:
             return
+        if [canon.snapshot(C), canon.snapshot(L), canon.snapshot(R)] != before:
+            ctx.violation("fn=apply_matcher,kind=input-modified",
+                          "apply_matcher n_jobs=%r modified its candidate set or tables "
+                          "(candset index now %r)" % (case["n_jobs"], C.index.tolist()[:8]))
         header, rows, kept, dropped = model(case, L, R)
         cached = tok is not None and (len(L) + len(R) < 2 * len(C))
         self.compare(ctx, case, out, header, rows, len(C),
